@@ -401,6 +401,25 @@ func suiteResource(r *Rng, n int, thorough bool, o *Out) {
 				differ = "attrname"
 				break
 			}
+		case 5: // the same IDs of a to-many relationship in another order: different values
+			for _, k := range sortedKeys(typ.Rels) {
+				if typ.Rels[k].ToOne {
+					continue
+				}
+				ids := [][]string{{"t2", "t10", "t1"}, {"a", "b"}, {"b", "a", "c", "a"}}[r.IntN(3)]
+				a.Set(k, append([]string{}, ids...))
+				rev := make([]string, len(ids))
+				for i := range ids {
+					rev[len(ids)-1-i] = ids[i]
+				}
+				if r.bool() { // rotated instead of reversed
+					rev = append(append([]string{}, ids[1:]...), ids[0])
+				}
+				vals2[k] = rev
+				differ = "value"
+				o.stat("equal.tomany-order")
+				break
+			}
 		case 4: // rename one relationship
 			for _, k := range sortedKeys(typ.Rels) {
 				rel := typ2.Rels[k]
